@@ -155,6 +155,79 @@ theorem decVbiAux_prefix (bs : Bytes) (v m n : Nat) (rest : Bytes) (h : decVbiAu
             apply hnt
             exact ⟨l, by simpa [List.getLast?_cons_cons] using hl, hlt⟩
 
+theorem decVbiAux_len' (bs : Bytes) (v m n : Nat) (rest : Bytes) (h : decVbiAux bs v m = .ok (n, rest)) :
+    rest.length ≤ bs.length := by
+  obtain ⟨pre, hp, _⟩ := decVbiAux_prefix bs v m n rest h
+  rw [hp]; simp
+
+/-- upper bound (exclusive) of what `j` seven-bit groups can hold, capped at the 28 bits the reader allows -/
+def vbiCap (j : Nat) : Nat :=
+  if j = 0 then 1 else if j = 1 then 128 else if j = 2 then 16384 else if j = 3 then 2097152 else 268435456
+
+theorem vbiCap_0 : vbiCap 0 = 1 := rfl
+theorem vbiCap_1 : vbiCap 1 = 128 := rfl
+theorem vbiCap_2 : vbiCap 2 = 16384 := rfl
+theorem vbiCap_3 : vbiCap 3 = 2097152 := rfl
+theorem vbiCap_4 : vbiCap 4 = 268435456 := rfl
+theorem vbiCap_ge4 (j : Nat) (h : 4 ≤ j) : vbiCap j = 268435456 := by
+  unfold vbiCap
+  rw [if_neg (by omega), if_neg (by omega), if_neg (by omega), if_neg (by omega)]
+
+/-- after `j` groups have been accumulated (`v < 128^j`), consuming `c` more bytes yields a value `< 128^(j+c)`:
+    the value read is never larger than its byte count allows, hence the canonical form is never longer -/
+theorem decVbiAux_cap (bs : Bytes) : ∀ (j v n : Nat) (rest : Bytes), j ≤ 4 → v < vbiCap j →
+    decVbiAux bs v (7 * j) = .ok (n, rest) → n < vbiCap (j + (bs.length - rest.length)) := by
+  induction bs with
+  | nil =>
+    intro j v n rest _ hv h
+    simp only [decVbiAux] at h
+    split at h
+    · cases h
+    · cases h; simpa using hv
+  | cons d t ih =>
+    intro j v n rest hj hv h
+    have hle := decVbiAux_le _ _ _ _ _ h
+    have hlen := decVbiAux_prefix _ _ _ _ _ h
+    obtain ⟨pre, hpre, _⟩ := hlen
+    have hl : rest.length ≤ (d :: t).length := by rw [hpre]; simp
+    by_cases hj4 : j = 4
+    · subst hj4
+      rw [vbiCap_ge4 _ (by omega)]
+      simp only [vbiMax] at hle
+      omega
+    · have hj3 : j ≤ 3 := by omega
+      have hk : 7 * j ≤ 21 := by omega
+      have hv2 : v < 2 ^ (7 * j) := by
+        have : j = 0 ∨ j = 1 ∨ j = 2 ∨ j = 3 := by omega
+        rcases this with rfl | rfl | rfl | rfl
+        · rw [vbiCap_0] at hv; simpa using hv
+        · rw [vbiCap_1] at hv; simpa using hv
+        · rw [vbiCap_2] at hv; simpa using hv
+        · rw [vbiCap_3] at hv; simpa using hv
+      simp only [decVbiAux] at h
+      rw [or_shl32 v (d % 128) (7 * j) hv2 (by omega) hk] at h
+      have hnew : v + d % 128 * 2 ^ (7 * j) < vbiCap (j + 1) := by
+        have : j = 0 ∨ j = 1 ∨ j = 2 ∨ j = 3 := by omega
+        rcases this with rfl | rfl | rfl | rfl
+        · rw [vbiCap_0] at hv; rw [vbiCap_1]; simp only [Nat.mul_zero, Nat.pow_zero]; omega
+        · rw [vbiCap_1] at hv; rw [vbiCap_2]; simp only [Nat.mul_one, Nat.reducePow]; omega
+        · rw [vbiCap_2] at hv; rw [vbiCap_3]; simp only [Nat.reduceMul, Nat.reducePow]; omega
+        · rw [vbiCap_3] at hv; rw [vbiCap_4]; simp only [Nat.reduceMul, Nat.reducePow]; omega
+      split at h
+      · cases h
+      · split at h
+        · cases h
+          simp only [List.length_cons]
+          have : j + (t.length + 1 - t.length) = j + 1 := by omega
+          rw [this]; exact hnew
+        · have e7 : (7 * j + 7) % 4294967296 = 7 * (j + 1) := by omega
+          rw [e7] at h
+          have := ih (j + 1) _ n rest (by omega) hnew h
+          have hl2 : rest.length ≤ t.length := decVbiAux_len' t _ _ n rest h
+          simp only [List.length_cons]
+          have e : j + (t.length + 1 - rest.length) = j + 1 + (t.length - rest.length) := by omega
+          rw [e]; exact this
+
 /-! ### fixed-width integers -/
 
 theorem readU16_writeU16 (n : Nat) (h : n < 65536) (rest : Bytes) :
